@@ -15,7 +15,7 @@
     ([C02_vested_drained]). *)
 From LP Require Import Proofs.Tactics Proofs.LedgerBase Proofs.Gates Proofs.Frames Proofs.Settle Proofs.Confirm Proofs.Reserve Proofs.Ledger
   Proofs.ClaimLedger Proofs.Lock Proofs.Vesting Proofs.Examples
-  Proofs.Resume Proofs.Leftover Proofs.Lifecycle Proofs.VestedCover Proofs.VestedLifecycle Proofs.Setup Proofs.SetupGt Proofs.SetupVested.
+  Proofs.Resume Proofs.Leftover Proofs.Lifecycle Proofs.VestedCover Proofs.VestedLifecycle Proofs.Setup Proofs.SetupGt Proofs.SetupVested Proofs.SetupCover.
 Open Scope N_scope.
 
 (** the single deposit: accepted iff nothing was deposited yet and the call value is exactly one
@@ -106,6 +106,28 @@ Theorem C02_owner_leaves_cover : forall e w w' A,
   bal w' (caller e) (lp_token (st w)) 0 + tpt (st w) * nr_winning (st w) =
   bal w (caller e) (lp_token (st w)) 0 + bal w sc_addr (lp_token (st w)) 0.
 Proof. exact Cover_owner. Qed.
+
+(** ** from deployment to the cover invariant, contracts that pay winners at once *)
+Theorem C02_cover_from_deployment : forall (H : list N -> list N) v w0 lf wf ef bf w1 ls ws es bs w2 sd rest,
+  plain v -> setup_reach H v w0 -> deposited (st w0) = true ->
+  after_interrupted filter_tickets lf w0 = Some wf -> filter_tickets ef bf wf = Ok (w1, 0) ->
+  seeds w1 = sd :: rest ->
+  after_interrupted (select_winners H) ls w1 = Some ws -> select_winners H es bs ws = Ok (w2, 0) ->
+  exists l : list (N * N),
+    ClaimInv w2 (map fst l) /\ CoverInv w2 /\ pay_token (st w2) <> lp_token (st w2) /\
+    bal w2 sc_addr (lp_token (st w2)) 0 = tpt (st w2) * nr_winning (st w0).
+Proof. exact deployed_cover. Qed.
+
+Theorem C02_cover_from_deployment_gt : forall (H : list N -> list N) v w0 lf wf ef bf w1 ls ws es bs w2 sd rest ld wd ed bd w3,
+  guar v -> setup_reach_gt H v w0 ->
+  deposited (st w0) = true -> 0 < price (st w0) ->
+  after_interrupted filter_tickets lf w0 = Some wf -> filter_tickets ef bf wf = Ok (w1, 0) ->
+  seeds w1 = sd :: rest ->
+  after_interrupted (select_winners H) ls w1 = Some ws -> select_winners H es bs ws = Ok (w2, 0) ->
+  after_interrupted (distribute_guaranteed_tickets H (vflag v)) ld w2 = Some wd ->
+  distribute_guaranteed_tickets H (vflag v) ed bd wd = Ok (w3, 0) ->
+  exists l : list (N * N), ClaimInv w3 (map fst l) /\ CoverInv w3.
+Proof. exact deployed_cover_gt. Qed.
 
 (** ** the vested contracts (guaranteed-tickets, guaranteed-tickets-v2) *)
 
@@ -228,6 +250,8 @@ Print Assumptions C02_tpt_frozen.
 Print Assumptions C02_claim_covered.
 Print Assumptions C02_claim_covered_locked.
 Print Assumptions C02_owner_leaves_cover.
+Print Assumptions C02_cover_from_deployment.
+Print Assumptions C02_cover_from_deployment_gt.
 Print Assumptions C02_vested_ledger.
 Print Assumptions C02_vested_pipeline.
 Print Assumptions C02_setup_ledger.
